@@ -348,7 +348,15 @@ func (c *Ctx) checkKeyWriterPrecedence(rule string) {
 	why := "no lookup of the key in maps[j] found"
 	instrsOf(fn, func(in ssa.Instruction) {
 		lk, isLk := in.(*ssa.Lookup)
-		if !isLk || !lk.CommaOk {
+		if !isLk {
+			return
+		}
+		if !lk.CommaOk {
+			if ld0, isLd0 := lk.X.(*ssa.UnOp); isLd0 {
+				if ia0, isIA0 := ld0.X.(*ssa.IndexAddr); isIA0 && maps != nil && canon(ia0.X) == ssa.Value(maps) {
+					why = "the value for a key is taken from maps[j][k] without the comma-ok test: whether a map 'has' the key is decided by the value's content, so a later map that sets the key to the empty string does not take precedence"
+				}
+			}
 			return
 		}
 		ld, isLd := lk.X.(*ssa.UnOp)
@@ -609,7 +617,7 @@ func (c *Ctx) checkStringMapMutations(rule string) {
 	if nBad == 0 {
 		c.ok(rule, "library packages", token.NoPos, fmt.Sprintf("none of the %d updates/deletes on string maps targets an API-supplied tag map or a scope's published tags (%d such values tracked)", n, len(taint)))
 	}
-	c.floor(rule, n, 6)
+	c.floor(rule, n, 3)
 }
 
 func freshMap(v ssa.Value, fn *ssa.Function, depth int, seen map[ssa.Value]bool) bool {
